@@ -232,7 +232,7 @@ def run(tier):
     chk.coverage = {
         'evaluations': len(cases) + n_lib + lib_model.get('cases', 0),
         'distinct_nontrivial': len(nontrivial),
-        'rule': 'operators: 14 binary x every ordered pair of a %d-value adversarial pool + unary minus, through evaluate_expression and (sampled) execute_script; '
+        'rule': '+ round 7: every operator pair again in DEBUG mode (same value, nothing escapes) and host functions failing without a message / with a multi-line message / by assert; operators: 14 binary x every ordered pair of a %d-value adversarial pool + unary minus, through evaluate_expression and (sampled) execute_script; '
                 'library: every SCRIPT_FUNCTIONS name x random argument lists (0-5 values of every type incl. huge ints, non-finite floats, cyclic containers); '
                 'host functions raising four exception kinds (debug on/off) and BareScriptRuntimeError; evaluate_expression without options; generated programs on '
                 'adversarial globals; non-trivial = distinct operator expressions' % len(vals),
